@@ -35,22 +35,7 @@ __all__ = [PushService.__name__]
 
 from ..api.tracepoint import TracePointConfig as TrPoCo, EventSnapshot, StackFrame as StFr, WatchResult as WaRe, \
     Variable as Var, VariableId as VarId
-from ..grpc import convert_value
-
-
-def __text(value):
-    """
-    Make text safe for protobuf.
-
-    Python strings can hold lone surrogates (e.g. from os.fsdecode, or json), these cannot be encoded as utf-8, so
-    we replace them instead of losing the whole snapshot.
-    """
-    if isinstance(value, str):
-        try:
-            value.encode('utf-8')
-        except UnicodeEncodeError:
-            return value.encode('utf-8', 'replace').decode('utf-8')
-    return value
+from ..grpc import convert_value, safe_text as __text
 
 
 def __convert_tracepoint(tracepoint: TrPoCo):
@@ -60,11 +45,13 @@ def __convert_tracepoint(tracepoint: TrPoCo):
 
 
 def __convert_frame(frame: StFr):
-    return StackFrame(file_name=frame.file_name, short_path=frame.short_path, method_name=frame.method_name,
-                      line_number=frame.line_number, class_name=frame.class_name, is_async=frame.is_async,
+    # file names come from the file system: a name with bytes that do not decode holds lone surrogates
+    return StackFrame(file_name=__text(frame.file_name), short_path=__text(frame.short_path),
+                      method_name=__text(frame.method_name),
+                      line_number=frame.line_number, class_name=__text(frame.class_name), is_async=frame.is_async,
                       column_number=frame.column_number, variables=[__convert_variable_id(v) for v in frame.variables],
                       app_frame=frame.app_frame,
-                      transpiled_file_name=frame.transpiled_file_name,
+                      transpiled_file_name=__text(frame.transpiled_file_name),
                       transpiled_line_number=frame.transpiled_line_number,
                       transpiled_column_number=frame.transpiled_column_number,
                       )
